@@ -1,5 +1,5 @@
 From Base Require Import CInt.
-From C02 Require Import Gen Model Tactics ProofsHelpers ProofsHelpersCmp.
+From C02 Require Import Gen Model Tactics ProofsHelpers ProofsHelpersCmp ProofsDiv.
 Local Open Scope Z_scope.
 
 (* ---------------------------------------------------------------- wrap_value *)
@@ -282,3 +282,95 @@ Qed.
    very condition under which the run-time check of C04 (nelua_assert_narrow_) does not fire *)
 Lemma conv_rejected_iff d v : conv_accepts d v = false <-> ~ in_range d v.
 Proof. unfold conv_accepts. apply in_rangeb_false. Qed.
+
+(* ---------------------------------------------------------------- run-time side: // and % *)
+
+Lemma div_tables_complete t : wf_ity t -> sgn t = true ->
+  (exists f, lookup1 t idiv_table = Some f) /\ (exists f, lookup1 t imod_table = Some f).
+Proof. intros Ht Hs. ity_cases t Ht; try discriminate Hs; split; eexists; vm_compute; reflexivity. Qed.
+
+Lemma promote_type_signed lt rt : wf_ity lt -> wf_ity rt -> sgn lt || sgn rt = true ->
+  wf_ity (promote_type lt rt) /\ sgn (promote_type lt rt) = true.
+Proof. intros Hl Hr. ity_cases lt Hl; ity_cases rt Hr; vm_compute; intros H; try discriminate H; split; reflexivity. Qed.
+
+(* `//` and `%` when an operand type is signed (checked helpers), operands representable in the
+   result type: "division by zero" iff b = 0, Lua's floor division / modulo otherwise *)
+Lemma rt_idiv_modular lt rt a b : wf_ity lt -> wf_ity rt -> sgn lt || sgn rt = true ->
+  in_range (promote_type lt rt) a -> in_range (promote_type lt rt) b ->
+  rt_bin Bidiv lt rt a b = (if b =? 0 then Rstop 4 else Rval (promote_type lt rt) (wrap (promote_type lt rt) (a / b))) /\
+  rt_bin Bmod lt rt a b = (if b =? 0 then Rstop 4 else Rval (promote_type lt rt) (a mod b)).
+Proof.
+  intros Hl Hr Hs Ha Hb. destruct (promote_type_signed lt rt Hl Hr Hs) as [Hw HsT].
+  destruct (div_tables_complete _ Hw HsT) as ((f & Hf) & (g & Hg)).
+  unfold rt_bin, of_call. rewrite Hs. change (rt_type Bidiv lt rt) with (promote_type lt rt).
+  change (rt_type Bmod lt rt) with (promote_type lt rt). rewrite Hf, Hg.
+  rewrite (idiv_helper_correct _ f a b (lookup1_in _ _ _ Hf) Ha Hb).
+  rewrite (imod_helper_correct _ g a b (lookup1_in _ _ _ Hg) Ha Hb).
+  destruct (b =? 0); split; reflexivity.
+Qed.
+
+(* ---------------------------------------------------------------- bitwise operators *)
+
+Lemma mod_pow2_testbit x k i : 0 <= k -> 0 <= i ->
+  Z.testbit (x mod 2 ^ k) i = if i <? k then Z.testbit x i else false.
+Proof.
+  intros Hk Hi. destruct (i <? k) eqn:E.
+  - apply Z.mod_pow2_bits_low. lia.
+  - apply Z.mod_pow2_bits_high. lia.
+Qed.
+
+Section Bitop.
+  Variable f : Z -> Z -> Z.
+  Variable g : bool -> bool -> bool.
+  Hypothesis fbits : forall a b i, 0 <= i -> Z.testbit (f a b) i = g (Z.testbit a i) (Z.testbit b i).
+
+  Lemma bitop_mod_congr a a' b b' k : 0 <= k ->
+    a mod 2 ^ k = a' mod 2 ^ k -> b mod 2 ^ k = b' mod 2 ^ k -> f a b mod 2 ^ k = f a' b' mod 2 ^ k.
+  Proof.
+    intros Hk Ea Eb. apply Z.bits_inj'. intros i Hi.
+    rewrite !mod_pow2_testbit by assumption. destruct (i <? k) eqn:E; [|reflexivity].
+    rewrite !fbits by assumption.
+    assert (Z.testbit a i = Z.testbit a' i) as ->.
+    { rewrite <- (Z.mod_pow2_bits_low a k i), <- (Z.mod_pow2_bits_low a' k i) by lia. rewrite Ea. reflexivity. }
+    assert (Z.testbit b i = Z.testbit b' i) as ->.
+    { rewrite <- (Z.mod_pow2_bits_low b k i), <- (Z.mod_pow2_bits_low b' k i) by lia. rewrite Eb. reflexivity. }
+    reflexivity.
+  Qed.
+
+  Lemma bitop_wrap c t a b : wf_ity c -> wf_ity t -> bits t <= bits c ->
+    wrap t (wrap c (f (wrap c a) (wrap c b))) = wrap t (f a b).
+  Proof.
+    intros Hc Ht Hb. rewrite wrap_wrap_narrow by assumption.
+    apply wrap_eqm; [exact Ht|]. rewrite (tmod_eq t Ht).
+    assert (0 <= bits t) by (ity_cases t Ht; cbn; lia).
+    apply bitop_mod_congr; [assumption| |].
+    - rewrite <- (tmod_eq t Ht). rewrite <- (wrap_mod t (wrap c a) Ht), <- (wrap_mod t a Ht).
+      rewrite wrap_wrap_narrow by assumption. reflexivity.
+    - rewrite <- (tmod_eq t Ht). rewrite <- (wrap_mod t (wrap c b) Ht), <- (wrap_mod t b Ht).
+      rewrite wrap_wrap_narrow by assumption. reflexivity.
+  Qed.
+End Bitop.
+
+Lemma bits_bitop_le_arith lt rt : wf_ity lt -> wf_ity rt ->
+  let t := if bits lt <? bits rt then rt else lt in bits t <= bits (c_arith_type lt rt) /\ wf_ity t.
+Proof. intros Hl Hr. ity_cases lt Hl; ity_cases rt Hr; vm_compute; split; congruence. Qed.
+
+(* | ~ & at run time: the exact bitwise operation on the (infinite two's complement) operands,
+   reduced into the result type - for every pair of types and ALL operand values *)
+Lemma rt_bitops_modular lt rt a b : wf_ity lt -> wf_ity rt ->
+  rt_bin Bbor lt rt a b = Rval (rt_type Bbor lt rt) (wrap (rt_type Bbor lt rt) (Z.lor a b)) /\
+  rt_bin Bbxor lt rt a b = Rval (rt_type Bbxor lt rt) (wrap (rt_type Bbxor lt rt) (Z.lxor a b)) /\
+  rt_bin Bband lt rt a b = Rval (rt_type Bband lt rt) (wrap (rt_type Bband lt rt) (Z.land a b)).
+Proof.
+  intros Hl Hr. destruct (bits_bitop_le_arith lt rt Hl Hr) as [Hb Hw].
+  pose proof (wf_arith_type lt rt Hl Hr) as Hc.
+  unfold rt_bin, of_val, c_or, c_xor, c_and, c_operands. cbn [obind].
+  change (rt_type Bbor lt rt) with (if bits lt <? bits rt then rt else lt).
+  change (rt_type Bbxor lt rt) with (if bits lt <? bits rt then rt else lt).
+  change (rt_type Bband lt rt) with (if bits lt <? bits rt then rt else lt).
+  rewrite !c_conv_gnu by exact Hw.
+  repeat split; f_equal.
+  - apply (bitop_wrap Z.lor orb); auto using Z.lor_spec.
+  - apply (bitop_wrap Z.lxor xorb); auto using Z.lxor_spec.
+  - apply (bitop_wrap Z.land andb); auto using Z.land_spec.
+Qed.
